@@ -1224,3 +1224,89 @@ def c11_dekad(kind, y=1, m=1, d=1, h=0, mi=0, s=0, us=0, raw=36, n=0, raw2=36):
     except Exception as e:  # noqa
         probs.append(f"raised {type(e).__name__}: {e}"[:200])
     return {"violates": bool(probs), "why": probs}
+
+
+# ------------------------------------------------------------------ C07 / C08
+def _spi_reference(x, nodata, c0, c1):
+    """Independent SciPy evaluation of the definition. Returns list of floats (unrounded*1000) or None per cell; None = nodata."""
+    import scipy.special as sc
+    import scipy.optimize as so
+    x = np.asarray(x, dtype="float64")
+    valid = (x != nodata) & (x >= 0)
+    out = [None] * len(x)
+    if valid.sum() == 0:
+        return out
+    p0 = float((x[valid] == 0).sum()) / float(valid.sum())
+    if p0 > 0.9:
+        return out
+    win = x[c0:c1]
+    pos = win[(win != nodata) & (win > 0)]
+    if len(pos) == 0:
+        return out
+    mean = pos.mean()
+    s = np.log(mean) - np.log(pos).mean()
+    if not (s > 0):
+        return out
+    f = lambda a: np.log(a) - sc.digamma(a) - s  # noqa: E731
+    thom = (3 - s + np.sqrt((s - 3) ** 2 + 24 * s)) / (12 * s)
+    xa, xb = thom * 0.6, thom * 1.4
+    if f(xa) * f(xb) > 0:
+        return out
+    alpha = so.brentq(f, xa, xb, xtol=2e-12, rtol=8.881784197001252e-16, maxiter=100)
+    beta = mean / alpha
+    for i in range(len(x)):
+        if valid[i]:
+            out[i] = 1000.0 * float(sc.ndtri(p0 + (1 - p0) * sc.gammainc(alpha, x[i] / beta)))
+    return out
+
+
+def _spi_compare(got, ref, nodata):
+    bad = []
+    for i, (g, r) in enumerate(zip(got, ref)):
+        if r is None:
+            if g != nodata:
+                bad.append((i, int(g), "nodata expected"))
+            continue
+        if not np.isfinite(r) or abs(r) > 7000:
+            continue   # C08's territory
+        if abs(g - r) > 0.5 + 1e-4 * max(1.0, abs(r)):
+            bad.append((i, int(g), r))
+    return bad
+
+
+def c07_spi(entry, pixels, nodata, window=None, groups=None, cal=None):
+    from hdc.algo.ops import stats
+    rng = np.random.default_rng(43)
+    base = [np.array(p, dtype="int64") for p in pixels]
+    variants = [base]
+    for k in range(4):
+        v = []
+        for p in base:
+            q = p.copy()
+            ok = q != nodata
+            q[ok] = np.where(q[ok] > 0, q[ok] * rng.integers(1, 40) + rng.integers(0, 30, ok.sum()), q[ok])
+            q[ok & (q == nodata)] += 1
+            v.append(np.clip(q, -32000, 32000))
+        variants.append(v)
+    for pix in variants:
+        try:
+            if entry == "yxt":
+                cube = np.array(pix, dtype="int16").reshape(1, len(pix), -1)
+                res = stats.gammastd_yxt(cube, nodata, cal_start=window[0], cal_stop=window[1])
+                for k, p in enumerate(pix):
+                    bad = _spi_compare(res[0, k, :], _spi_reference(p, nodata, window[0], window[1]), nodata)
+                    if bad:
+                        return {"violates": True, "pixel": p, "window": window, "bad": bad[:4], "got": res[0, k, :]}
+            else:
+                p = pix[0]
+                g = np.array(groups, dtype="int16")
+                ng = int(max(groups)) + 1
+                res = stats.gammastd_grp(np.array(p, dtype="int16"), g, ng, nodata, np.array(cal, dtype="int16"))
+                for grp in range(ng):
+                    idx = np.where(g == grp)[0]
+                    bad = _spi_compare(res[idx], _spi_reference(p[idx], nodata, cal[grp][0], cal[grp][1]), nodata)
+                    if bad:
+                        return {"violates": True, "pixel": p, "group": grp, "bad": bad[:4], "got": res}
+        except Exception as e:  # noqa
+            return {"violates": True, "why": f"raised {type(e).__name__}: {e}"[:200], "pixels": pix}
+    return {"violates": False}
